@@ -218,6 +218,10 @@ def cases(draw):
         # "for all bunch counts": long trains on a small grid (fully filled rings have hundreds of bunches)
         nb = draw(st.sampled_from([17, 64, 255, 256, 257, 300]))
         n = draw(st.integers(8, 12))
+    elif kind not in ("wake", "chain") and draw(st.integers(0, 15)) == 0:
+        # production-size grid (the default is 256), two bunches
+        nb = 2
+        n = draw(st.sampled_from([255, 256, 257, 300]))
     it = draw(st.sampled_from([1, 2, 3, 4]))
     c = dict(kind=kind, n=n, nb=nb, it=it, dseed=draw(gen.seeds()),
              dkind=draw(st.sampled_from(["noise", "pos", "altsign", "impulse"])),
